@@ -120,7 +120,14 @@ fn gen_scenario(dec: &mut Dec, flavor: Flavor, tier: Tier) -> Scenario {
             let nrec = dec.choose(K::Arg, 4);
             let sleep_ms = if dec.chance(K::Arg, 1, if flavor == Flavor::C05 { 4 } else { 8 }) { 1 + dec.choose(K::Arg, 3) } else { 0 };
             let alloc = if dec.chance(K::Arg, 1, 3) { 1 + dec.choose(K::Arg, 64) } else { 0 };
-            let fate = dec.choose(K::Arg, 4);
+            let mut fate = dec.choose(K::Arg, 4);
+            let mut panics = panics;
+            if class == C_DROP_PANICS {
+                // a result whose destructor panics: only with a dropped handle (a joined one would
+                // hand the value to main), the closure itself returns normally
+                fate = if fate % 2 == 0 { FATE_DROP_NOW } else { FATE_DROP_LATER };
+                panics = false;
+            }
             // at most one per process: a thread that panics while it holds tiny-std's print lock
             // never releases it (there is no unwinding), a second one would rightly block for ever
             let panic_in_print = panics && !print_panic_used && dec.chance(K::Arg, 1, 5);
@@ -434,7 +441,9 @@ fn judge_c06(scn: &Scenario, out: &Out, f: &[TagFacts]) -> Option<Violation> {
         let spawn_failed = b.iter().any(|s| f[s.tag as usize].spawned.is_some_and(|x| !x.1));
         let class = if spawn_failed { "spawn-failed".to_string() } else { batch_class(b) };
         let described: Vec<String> = b.iter().map(TSpec::describe).collect();
-        panicked_so_far += b.iter().filter(|s| s.panics && f[s.tag as usize].spawned.is_some_and(|x| x.1) && !f[s.tag as usize].starts.is_empty()).count() as u64;
+        // a thread that ends in the panic handler leaves its closure behind: the closure panicked, or
+        // the result's destructor did when the thread disposed of it
+        panicked_so_far += b.iter().filter(|s| (s.panics || s.class == C_DROP_PANICS) && f[s.tag as usize].spawned.is_some_and(|x| x.1) && !f[s.tag as usize].starts.is_empty()).count() as u64;
         // (1) no thread stack mapped
         if let Some(snap) = out.snapshots.iter().find(|s| s.kind == R_BATCH_END && s.rec_pos == pos + 1) {
             if let Some(m) = snap.live_stacks.first() {
@@ -654,7 +663,7 @@ impl Check for C05 {
         prepare_probe();
     }
     fn rule(&self) -> String {
-        "each case = one execution of probes/threads under the tracer: 1..3 (thorough 1..5) batches of 1..6 threads; per thread a result type of 11 classes (() .. align 4096, and bool / Option<u32> / Result<u8,u8> / String for niches and heap ownership), returns or panics (1/3), 0..3 report records, optional sleep and heap allocation, handle fate join-now / join-after-the-others / drop-now / drop-later. The decision stream picks the scheduling mode (uniform, sticky 1/2 1/4 1/16, main-first, newest-first), the thread at every system-call stop, up to 6 single-step bursts of <=400 instructions (biased to the window after a thread's last record and after main's join/drop markers), in 1/3 of the runs up to 2 failures of mmap(stack) or clone (EAGAIN/ENOMEM); in half of the runs the emulated wake of an exiting thread's clear-tid futex comes 1..4 or 1..24 quanta after the kernel's zero write is visible (two separate steps in the kernel), in a quarter the probe's allocator reuses freed blocks at once (no quarantine), in half a thread preempted inside a window is frozen for up to 6 or 16 quanta; FUTEX_WAIT timeouts run on the simulated clock. every 4th case uses the debug build of the probe. non-trivial = >=2 context switches and (a futex park, a burst or a fired fault); distinct = hash of scenario x sequence of (thread, scheduling-point kind)".into()
+        "each case = one execution of probes/threads under the tracer: 1..3 (thorough 1..5) batches of 1..6 threads; per thread a result type of 12 classes (() .. align 4096; bool / Option<u32> / Result<u8,u8> / String for niches and heap ownership; a type whose destructor panics, used only with a handle that is dropped before the closure returns), returns or panics (1/3; at most one panic per run happens inside the arguments of an eprintln!, i.e. with the print lock held), 0..3 report records, optional sleep and heap allocation, handle fate join-now / join-after-the-others / drop-now / drop-later. The decision stream picks the scheduling mode (uniform, sticky 1/2 1/4 1/16, main-first, newest-first), the thread at every system-call stop, up to 6 single-step bursts of <=400 instructions (biased to the window after a thread's last record and after main's join/drop markers), in 1/3 of the runs up to 2 failures of mmap(stack) or clone (EAGAIN/ENOMEM), a third of those with clone failing for good once it has failed (a spawn that then keeps calling clone 200 times is a violation); in half of the runs the emulated wake of an exiting thread's clear-tid futex comes 1..4 or 1..24 quanta after the kernel's zero write is visible (two separate steps in the kernel), in a quarter the probe's allocator reuses freed blocks at once (no quarantine), in half a thread preempted inside a window is frozen for up to 6 or 16 quanta; FUTEX_WAIT timeouts run on the simulated clock. every 4th case uses the debug build of the probe. non-trivial = >=2 context switches and (a futex park, a burst or a fired fault); distinct = hash of scenario x sequence of (thread, scheduling-point kind)".into()
     }
     fn assumptions(&self) -> Vec<String> {
         vec![
